@@ -162,7 +162,7 @@ def run(ctx):
         ctx.mc("MC_FaceAssemble", "MC_FaceAssemble_2x1.cfg")
     ctx.mc("MC_FaceAssemble", "MC_FaceAssemble_1x2.cfg")
     rng = random.Random(ctx.seed * 32452843 + 5)
-    n = 12000 if thorough else 700
+    n = 12000 if thorough else 1200
     cases = [gen_case(rng, k + 1, nmax=3) for k in range(n)]
     recs = ctx.pmap(execute, cases, chunksize=4)
     bad = ctx.validate("C05Trace", recs, jvms=16 if thorough else 8, chunk=250)
